@@ -583,6 +583,10 @@ class C08(Prop):
                     for h in rng.sample(['before_signal', 'after_signal',
                                          'before_stop', 'after_stop'],
                                         rng.choice([1, 2])))
+        if len(cfg['watchers']) >= 2 and rng.random() < 0.06:
+            # two sections whose names differ in letter case only: two
+            # watchers for the file, one slot in the daemon's name directory
+            cfg['watchers'][1]['name'] = cfg['watchers'][0]['name'].upper()
         nw = len(cfg['watchers'])
         ops = []
         t = 0.0
